@@ -376,6 +376,13 @@ def check_convert_value(val: str, char: Characteristic) -> Any:
                 offset = Decimal(char.minValue if char.minValue is not None else 0)
                 min_step = Decimal(char.minStep)
 
+                if char.format in INTEGER_TYPES and all(
+                    d == d.to_integral_value() for d in (val, offset, min_step)
+                ):
+                    # Whole numbers are exact so there is no float noise to hide, and
+                    # six digits would corrupt large values (e.g. uint32/uint64)
+                    ctx.prec = 4 + sum(max(d.adjusted(), 0) + 1 for d in (val, offset, min_step))
+
                 # We use to_integral_value() here rather than round as it respsects
                 # ctx.rounding
                 val = offset + (((val - offset) / min_step).to_integral_value() * min_step)
